@@ -70,6 +70,12 @@ fn main() {
                 a(9).parse().unwrap_or(0),
             )
         }
+        "determinism" => {
+            let prop = args.get(2).cloned().unwrap_or_default();
+            let tier = orch::tier_of(args.get(3).map(|s| s.as_str()).unwrap_or("quick"));
+            let n: u64 = args.get(4).and_then(|s| s.parse().ok()).unwrap_or(2000);
+            orch::determinism(&prop, tier, env_u64("VERIF_SEED", 1), n)
+        }
         "replay" => {
             let v = args.iter().any(|a| a == "-v");
             orch::replay_file(args.get(2).map(|s| s.as_str()).unwrap_or(""), v)
